@@ -10,8 +10,9 @@ RULE = ('each content is built by every route (bin/hex text, token string incl. 
         'file name and file handle with offset in {0, unaligned, aligned} and length in {None, whole, shorter, not a multiple of 8}) and a battery of ~45 non-mutating operations and ~20 mutators '
         '(on a mutable class) is run on each, under msb0 and lsb0; every result must equal the result for Bits(bin=content). non-trivial = route other than bin=; distinct by (content, route, mode)')
 ASSUMPTIONS = ['a file is its bytes (mmap itself is not modelled)', 'repr of a file-backed object shows filename= by design and is excluded; str is included']
-FILE_ROUTES = ['file_whole', 'file_len', 'file_off', 'file_off_len', 'file_unaligned', 'handle', 'handle_off_len', 'file_shorter_nonmult']
-ALL_ROUTES = ROUTES + FILE_ROUTES + ['hex', 'cachehit', 'array', 'memoryview', 'fromstring']
+FILE_ROUTES = ['file_whole', 'file_len', 'file_off', 'file_off_len', 'file_unaligned', 'handle', 'handle_off_len', 'file_shorter_nonmult',
+               'file_exact_len', 'handle_exact_len']
+ALL_ROUTES = ROUTES + FILE_ROUTES + ['hex', 'cachehit', 'array', 'memoryview', 'fromstring', 'bitarray_little', 'bitarray_little_window']
 
 def gen_cases(rng, tier):
     N = 40 if tier == 'quick' else 500
@@ -23,7 +24,19 @@ def gen_cases(rng, tier):
             if tier == 'quick' and rng.random() < 0.5 and route not in FILE_ROUTES: continue
             yield {'op': 'battery', 'bits': bits, 'route': route, 'cls': rng.choice(CLASSES), 'lsb0': rng.random() < 0.3, 'seed': rng.randrange(1 << 30)}
 
-def kind(c): return c['route']
+    # store-level cases: the file window mechanism (buffer + modified_length) against Store.v
+    M = 120 if tier == 'quick' else 1500
+    for i in range(M):
+        nb = rng.choice([1, 2, 3, 4, 5, 8])
+        src = [rng.randrange(256) for _ in range(nb)]
+        T = nb * 8
+        off = rng.choice([None, 0, 0, 0, 3, 8, rng.randrange(0, T + 2)])
+        ln = rng.choice([None, T, T, T - (off or 0), rng.randrange(0, T + 2), rng.randrange(0, T + 2)])
+        v = lambda: rng.choice([None, None, -T - 3, -T, -T + 1, -2, -1, 0, 1, 2, T // 2, T - 1, T, T + 5, rng.randrange(-T - 2, T + 3)])
+        yield {'op': 'store', 'src': src, 'offset': off, 'length': ln, 'key': [v(), v(), rng.choice([None, 1, 2, 3, -1, -1, -2, -3, -T, T, 7])],
+               'key2': [v(), v()], 'cls': rng.choice(CLASSES), 'handle': rng.random() < 0.3}
+
+def kind(c): return c['route'] if c['op'] == 'battery' else 'store'
 
 def build_route(C, bits, route, tmpfiles):
     """object of class C holding `bits` built through `route`; files are created in tmpfiles"""
@@ -48,7 +61,16 @@ def build_route(C, bits, route, tmpfiles):
     if route == 'memoryview':
         if n % 8 or not n: return C(bin=bits)
         return C(memoryview(int(bits, 2).to_bytes(n // 8, 'big')))
+    if route == 'bitarray_little':
+        import bitarray
+        return C(bitarray.bitarray(bits, endian='little'))
+    if route == 'bitarray_little_window':
+        import bitarray
+        return C(bitarray=bitarray.bitarray('101' + bits + '0110', endian='little'), offset=3, length=n)
     if n == 0: return C(bin=bits)
+    if route == 'file_exact_len': return C(filename=mkfile('', ''), length=n)          # length given and equal to the whole file when n % 8 == 0
+    if route == 'handle_exact_len':
+        with open(mkfile('', ''), 'rb') as fh: return C(fh, length=n, offset=0)
     if route == 'file_whole':
         if n % 8: return C(filename=mkfile('', ''), length=n)
         return C(filename=mkfile('', ''))
@@ -118,8 +140,36 @@ def battery(s, bits, rng_seed):
         m('iand', lambda: s.__iand__(Bits(len(s)))); m('replace', lambda: s.replace('0b1', '0b00', count=2)); m('byteswap', lambda: s.byteswap(1)); m('clear', lambda: s.clear())
     return out
 
+def run_store(c):
+    import bitstring
+    C = cls_of(c['cls'])
+    fd, path = tempfile.mkstemp(prefix='verif_c08s_')
+    with os.fdopen(fd, 'wb') as fh: fh.write(bytes(c['src']))
+    try:
+        def f():
+            kw = {}
+            if c['offset'] is not None: kw['offset'] = c['offset']
+            if c['length'] is not None: kw['length'] = c['length']
+            if c['handle']:
+                with open(path, 'rb') as fh: s = C(fh, **kw)
+            else:
+                s = C(filename=path, **kw)
+            st = s._bitstore
+            a, b, k = c['key']
+            sl = attempt(lambda: s[a:b:k].bin)
+            a2, b2 = c['key2']
+            sl2 = attempt(lambda: s[a2:b2].bin)
+            return {'mlen': st.modified_length, 'rawlen': len(st._bitarray), 'len': len(s), 'bin': s.bin, 'slice': sl, 'slice2': sl2,
+                    'tobytes': list(s.tobytes()), 'count1': s.count(1), 'inv': attempt(lambda: (~s).bin), 'add': (s + '0b10').bin,
+                    'eq': s == bitstring.Bits(bin=s.bin), 'copybin': s[:].bin}
+        return attempt(f, 30)
+    finally:
+        try: os.unlink(path)
+        except OSError: pass
+
 def run_impl(c):
     import bitstring
+    if c['op'] == 'store': return run_store(c)
     C = cls_of(c['cls'])
     tmp = []
     try:
@@ -141,16 +191,54 @@ def run_impl(c):
             try: os.unlink(p)
             except OSError: pass
 
+def oracle_store(c, obs):
+    T = len(c['src']) * 8
+    allbits = ''.join(format(x, '08b') for x in c['src'])
+    o = c['offset'] or 0
+    valid = T > 0 and 0 <= o and (c['length'] is None or c['length'] >= 0) and o + (c['length'] or 0) <= T
+    what = f"{c['cls']}({'handle' if c['handle'] else 'filename'} of {c['src']}, offset={c['offset']}, length={c['length']})"
+    if T == 0: return None                                   # an empty file cannot be mapped (OS)
+    if not valid:
+        return None if obs[0] == 'err' else f"{what} accepted a window outside the file: {str(obs)[:200]}"
+    if obs[0] != 'ok': return f"{what} raised {obs}"
+    r = obs[1]
+    w = allbits[o:o + c['length']] if c['length'] is not None else allbits[o:]
+    a, b, k = c['key']; a2, b2 = c['key2']
+    exp = {'len': len(w), 'bin': w, 'slice': ('ok', w[a:b:k]), 'slice2': ('ok', w[a2:b2]), 'count1': w.count('1'),
+           'tobytes': list(int(w + '0' * (-len(w) % 8), 2).to_bytes((len(w) + 7) // 8, 'big')) if w else [],
+           'inv': ('ok', ''.join('10'[int(x)] for x in w)) if w else ('err', 'BsError'), 'add': w + '10', 'eq': True, 'copybin': w}
+    for key, e in exp.items():
+        g = r[key]
+        if isinstance(g, list) and isinstance(e, tuple): g = tuple(g)
+        if g != e: return f"{what}: {key} (key={c['key']}, key2={c['key2']}) is {str(g)[:120]}, the window's bits give {str(e)[:120]}"
+    return None
+
 def oracle(c, obs):
+    if c['op'] == 'store': return oracle_store(c, obs)
     if obs[0] != 'ok': return f"building {c['cls']} via {c['route']} ({len(c['bits'])} bits, lsb0={c['lsb0']}) raised {obs}"
     if obs[1]['n_diffs']:
         return (f"{c['cls']} built via {c['route']} (lsb0={c['lsb0']}, bits={c['bits'][:40]!r}..{len(c['bits'])}) differs from the bin= object in {obs[1]['n_diffs']} operations, e.g. "
                 f"{str(obs[1]['diffs'][0])[:300]}")
     return None
 
-def nontrivial(c, obs): return c['route'] != 'bin'
+def nontrivial(c, obs): return c['op'] == 'store' or c['route'] != 'bin'
 def classify(c, obs): return None
-def coq_check(c, obs): return None
+
+def coq_check(c, obs):
+    if c['op'] != 'store' or not c['src']: return None
+    bits = ''.join(format(x, '08b') for x in c['src'])
+    L, O = copt(c['length'], cz), copt(c['offset'], cz)
+    if obs[0] != 'ok':
+        return f"match setfile {cbits(bits)} {L} {O} with Ok _ => false | Err _ => true end"
+    r = obs[1]
+    a, b, k = c['key']; a2, b2 = c['key2']
+    mut = c['cls'] in MUTABLE        # BitArray.__init__: an immutable (file) store is copied into memory, st_copy
+    return (f"match setfile {cbits(bits)} {L} {O} with Err _ => false | Ok s0 => let s := {'st_copy s0' if mut else 's0'} in "
+            f"opt_eqb Z.eqb (mlen s) {copt(r['mlen'], cz)} && (zlen (raw s) =? {r['rawlen']}) && (st_len s =? {r['len']}) && bits_eqb (bits_of s) {cbits(r['bin'])} "
+            f"&& rbits_eqb (st_getslice_withstep_msb0 s {cslice(a, b, k)}) {cres(tuple(r['slice']), cbits)} "
+            f"&& rbits_eqb (st_getslice_msb0 s {copt(a2, cz)} {copt(b2, cz)}) {cres(tuple(r['slice2']), cbits)} "
+            f"&& zlist_eqb (st_tobytes s) {clist(r['tobytes'], cz)} && (st_count s true =? {r['count1']}) "
+            f"&& bits_eqb (st_add s (mkstore {cbits('10')} None)) {cbits(r['add'])} && Bool.eqb (st_eq s (mkstore {cbits(r['bin'])} None)) {cbool(r['eq'])} end")
 
 def search(seeds, rng):
     for c in list(seeds) + list(gen_cases(rng, 'quick')):
